@@ -72,6 +72,15 @@ fn main() {
         "C19" => c19::run(seed, &tier, shard, nshards),
         "C20" => c20::run(seed, &tier, shard),
         "C01" | "C02" | "C08" => e1::run(&check, seed, &tier, shard, atom.as_deref()),
+        "C10" | "C11" => c10::run(&check, seed, &tier, shard, atom.as_deref()),
+        "C10W" => {
+            report::init("C10", "witness", seed, shard, &out);
+            c10::run("C10", seed, "witness", shard, None)
+        }
+        "C11W" => {
+            report::init("C11", "witness", seed, shard, &out);
+            c10::run("C11", seed, "witness", shard, None)
+        }
         "C12" => {
             if shard == 0 {
                 witness::run_witnesses("C12");
